@@ -27,10 +27,12 @@ REGISTRY = dict(
           "embeddings emb_k into any algebra R: the left-to-right contraction of the model's MPO factors is "
           "sum_k emb_k(h_k) + sum_{i<j} c U_ij sum_kinds emb_i(op) emb_j(op); the bond label lists of neighbouring "
           "factors agree (order included); update_H applied to the factors gives exactly the factors with the new "
-          "single-site terms (so the theorem holds after any number of in-place updates), touches only the slots "
+          "single-site terms, for ANY finite sequence of in-place updates on one MPO (all-zero steps included; the result is "
+          "the Hamiltonian of the last step), touches only the slots "
           "[0][0,:,:,0], [i][1,:,:,0] and last write wins. FULL. Model tied to the code by exact entry-by-entry "
           "comparison of every factor tensor (shapes included) on all 2^(N(N-1)/2) sparsity patterns for N<=5 "
-          "(thorough: N<=6, N=7 sampled, dim 3, noise), non-symmetric matrices included at factor level."),
+          "(thorough: N<=6, N=7 sampled, dim 3, noise), and after every call of 2-3 update_H sequences on one MPO (zero / "
+          "noise-only / one-atom / negative steps); non-symmetric matrices included at factor level."),
     note=("Trusted: Lean kernel + propext/Classical.choice/Quot.sound; Mathlib; hand-written Model.HamMPO tied by the "
           "exact correspondence only (generator-bounded: N<=7); complex128 rounding and torch indexing/einsum outside the "
           "theorem; cos/sin are inputs of the model (the code's omega*cos(phi), omega*sin(phi) products are taken as given)."),
@@ -193,8 +195,18 @@ def dyadic(rng, den=8, lo=-24, hi=24):
     return Fraction(rng.randint(lo, hi), den)
 
 
-def gen_single(rng, n, dim, noisy):
-    """exact single-site inputs: omega, delta complex dyadic, cos/sin tapes dyadic, noise dyadic complex"""
+STEP_KINDS = ("generic", "zero", "noise_only", "one_atom", "drive_only", "negative")
+SEQ_TEMPLATES = [("generic", "zero"), ("generic", "zero", "generic"), ("noise_only", "zero"), ("negative", "zero", "one_atom"),
+                 ("generic", "noise_only", "one_atom"), ("one_atom", "zero", "noise_only"), ("zero", "generic"),
+                 ("drive_only", "zero", "drive_only"), ("generic", "one_atom"), ("zero", "zero", "negative"),
+                 ("generic", "negative", "zero")]
+
+
+def gen_single(rng, n, dim, noisy, kind="generic"):
+    """exact single-site inputs: omega, delta complex dyadic, cos/sin tapes dyadic, noise dyadic complex.
+    kind: generic | zero (omega = delta = 0 for every atom, noise = 0) | noise_only (zero drive, non-zero noise) |
+    one_atom (zero noise, exactly one atom with a non-zero omega or delta) | drive_only (no noise) |
+    negative (all omega, delta, noise entries <= 0, some < 0)"""
     cplx = rng.random() < 0.3
     om = [complex(dyadic(rng), dyadic(rng) if cplx else 0) for _ in range(n)]
     de = [complex(dyadic(rng), dyadic(rng) if cplx else 0) for _ in range(n)]
@@ -204,6 +216,28 @@ def gen_single(rng, n, dim, noisy):
         noise = [[complex(dyadic(rng), dyadic(rng)) if rng.random() < 0.8 else 0j for _ in range(dim)] for _ in range(dim)]
     else:
         noise = [[0j] * dim for _ in range(dim)]
+    zn = [[0j] * dim for _ in range(dim)]
+    if kind == "zero":
+        om, de, noise = [0j] * n, [0j] * n, zn
+    elif kind == "noise_only":
+        om, de = [0j] * n, [0j] * n
+        noise = [[complex(dyadic(rng), dyadic(rng)) for _ in range(dim)] for _ in range(dim)]
+        noise[rng.randrange(dim)][rng.randrange(dim)] = complex(1.5, -0.25)
+    elif kind == "one_atom":
+        k = rng.randrange(n)
+        v = complex(rng.choice([-1, 1]) * Fraction(rng.randint(1, 24), 8), 0)
+        om, de, noise = [0j] * n, [0j] * n, zn
+        if rng.random() < 0.5:
+            om[k] = v
+            cs[k] = cs[k] or 1.0
+        else:
+            de[k] = v
+    elif kind == "drive_only":
+        noise = zn
+    elif kind == "negative":
+        om = [complex(-abs(o.real) - 0.125, 0) for o in om]
+        de = [complex(-abs(d.real), 0) for d in de]
+        noise = [[complex(-abs(z.real), -abs(z.imag)) for z in r] for r in noise]
     return om, de, cs, sn, noise
 
 
@@ -224,6 +258,13 @@ def line(typ, dim, U, mode="make", sites="-", noise="-"):
     return " ".join(["hammpo.factors", typ, str(dim), str(n), qlist(x for r in U for x in r), mode, sites, noise])
 
 
+def seq_line(typ, dim, U, steps):
+    """`hammpo.updseq`: steps = list of (sites, noise) argument strings, applied in sequence on one factor list"""
+    n = len(U)
+    return " ".join(["hammpo.updseq", typ, str(dim), str(n), qlist(x for r in U for x in r),
+                     ";".join(st[0] for st in steps), ";".join(st[1] for st in steps)])
+
+
 def batch_parallel(lines, k):
     """the batch split into k contiguous chunks, one driver process each (order preserved)"""
     from concurrent.futures import ThreadPoolExecutor
@@ -238,11 +279,13 @@ def batch_parallel(lines, k):
 
 
 # ------------------------------------------------------------------ oracle on the real code
-def oracle_case(typ, dim, U, omega, delta, phi, noise, omega2=None):
+def oracle_case(typ, dim, U, steps):
     """The statement of C05 on one input of the real code. Returns a failure string or None.
-    Checks: make_H contracts to the interaction part; after update_H to the full Hamiltonian;
-    a second update_H (other drives, then the real ones again) leaves exactly the same tensors
-    as a fresh build, in the same tensor objects, and only the single-site slots differ from make_H."""
+    `steps` = the update_H calls made IN SEQUENCE on the same MPO (dicts omega, delta, phi, noise).
+    Checks: make_H contracts to the interaction part; after EVERY update_H the MPO contracts to the full
+    Hamiltonian of THAT step (an all-zero step must remove the previous drive/noise terms), the factor
+    tensors are the same objects (in place) and only the single-site slots differ from make_H; finally
+    update_H(first step) followed by update_H(last step) again leaves bit-identical tensors (last write wins)."""
     import numpy as np
     import torch
     n = len(U)
@@ -257,61 +300,106 @@ def oracle_case(typ, dim, U, omega, delta, phi, noise, omega2=None):
     got0 = contract_dense(ham.factors, dim)
     if got0.shape != ref0.shape or not np.abs(got0 - ref0).max() <= TOL * scale:
         return f"make_H does not contract to the interaction Hamiltonian (max err {np.abs(got0 - ref0).max():.3e})"
-    impl_update(ham, omega, delta, phi, noise)
-    ref = dense_reference(typ, dim, Uf, omega, delta, phi, noise)
-    scale = max(1.0, float(np.abs(ref).max()))
-    got = contract_dense(ham.factors, dim)
-    if not np.abs(got - ref).max() <= TOL * scale:
-        return f"after update_H the MPO differs from the dense Hamiltonian (max err {np.abs(got - ref).max():.3e})"
-    if [id(f) for f in ham.factors] != ids:
-        return "update_H replaced factor tensors (not in place)"
-    for i, (f, b) in enumerate(zip(ham.factors, before)):
-        g = f.clone()
-        g[0 if i == 0 else 1, :, :, 0] = b[0 if i == 0 else 1, :, :, 0]
-        if not torch.equal(g, b):
-            return f"update_H changed entries of factor {i} outside the single-site slot"
+    for k, st in enumerate(steps):
+        impl_update(ham, st["omega"], st["delta"], st["phi"], st["noise"])
+        ref = dense_reference(typ, dim, Uf, st["omega"], st["delta"], st["phi"], st["noise"])
+        scale = max(1.0, float(np.abs(ref).max()))
+        got = contract_dense(ham.factors, dim)
+        if not np.abs(got - ref).max() <= TOL * scale:
+            return (f"after update_H #{k + 1} of {len(steps)} (kind {st.get('kind', '?')}) the MPO differs from the dense "
+                    f"Hamiltonian of that step (max err {np.abs(got - ref).max():.3e})")
+        if [id(f) for f in ham.factors] != ids:
+            return f"update_H #{k + 1} replaced factor tensors (not in place)"
+        for i, (f, b) in enumerate(zip(ham.factors, before)):
+            g = f.clone()
+            g[0 if i == 0 else 1, :, :, 0] = b[0 if i == 0 else 1, :, :, 0]
+            if not torch.equal(g, b):
+                return f"update_H #{k + 1} changed entries of factor {i} outside the single-site slot"
     snap = [f.clone() for f in ham.factors]
-    om2 = omega2 if omega2 is not None else [1.25 - x for x in omega]
-    impl_update(ham, om2, [x + 0.5 for x in delta], [x * 0.5 + 0.1 for x in phi], [[z * (0.5 - 1j) + 0.25 for z in r] for r in noise])
-    impl_update(ham, omega, delta, phi, noise)
-    for i, (f, s) in enumerate(zip(ham.factors, snap)):
-        if not torch.equal(f, s):
+    first, last = steps[0], steps[-1]
+    other = first if len(steps) > 1 else dict(omega=[1.25 - x for x in first["omega"]], delta=[x + 0.5 for x in first["delta"]],
+                                              phi=[x * 0.5 + 0.1 for x in first["phi"]],
+                                              noise=[[z * (0.5 - 1j) + 0.25 for z in r] for r in first["noise"]])
+    impl_update(ham, other["omega"], other["delta"], other["phi"], other["noise"])
+    impl_update(ham, last["omega"], last["delta"], last["phi"], last["noise"])
+    for i, (f, sn) in enumerate(zip(ham.factors, snap)):
+        if not torch.equal(f, sn):
             return f"update_H is not last-write-wins on factor {i}"
     return None
+
+
+def gen_step(rng, n, dim, kind):
+    """one random real-valued update step of the given kind (see STEP_KINDS)"""
+    omega = [rng.uniform(0, 12) for _ in range(n)]
+    delta = [rng.uniform(-15, 15) for _ in range(n)]
+    phi = [rng.uniform(-math.pi, 2 * math.pi) for _ in range(n)]
+    noise = [[complex(rng.uniform(-2, 2), rng.uniform(-2, 2)) for _ in range(dim)] for _ in range(dim)]
+    zn = [[0j] * dim for _ in range(dim)]
+    if kind == "generic" and rng.random() < 0.4:
+        noise = zn
+    elif kind == "zero":
+        omega, delta, noise = [0.0] * n, [0.0] * n, zn
+    elif kind == "noise_only":
+        omega, delta = [0.0] * n, [0.0] * n
+    elif kind == "one_atom":
+        k = rng.randrange(n)
+        v = rng.choice([-1, 1]) * rng.uniform(0.1, 10)
+        omega, delta, noise = [0.0] * n, [0.0] * n, zn
+        if rng.random() < 0.5:
+            omega[k] = abs(v)
+        else:
+            delta[k] = v
+    elif kind == "drive_only":
+        noise = zn
+    elif kind == "negative":
+        omega = [-x for x in omega]          # a negative amplitude is still a valid coefficient of the formula
+        delta = [-abs(x) for x in delta]
+        noise = [[complex(-abs(z.real), -abs(z.imag)) for z in r] for r in noise]
+    return dict(kind=kind, omega=omega, delta=delta, phi=phi, noise=noise)
 
 
 def gen_oracle_case(rng, n, dim, typ, bits=None):
     bits = bits if bits is not None else random_pattern(n, rng)
     U = [[0.0] * n for _ in range(n)]
+    cancel = rng.random() < 0.25        # couplings of equal magnitude and mixed sign (row sums cancel exactly)
     for b, (i, j) in zip(bits, itertools.combinations(range(n), 2)):
         if b:
-            U[i][j] = U[j][i] = rng.choice([-1, 1]) * rng.uniform(0.05, 12.0)
-    omega = [rng.uniform(0, 12) for _ in range(n)]
-    delta = [rng.uniform(-15, 15) for _ in range(n)]
-    phi = [rng.uniform(-math.pi, 2 * math.pi) for _ in range(n)]
-    if rng.random() < 0.6:
-        noise = [[complex(rng.uniform(-2, 2), rng.uniform(-2, 2)) for _ in range(dim)] for _ in range(dim)]
-    else:
-        noise = [[0j] * dim for _ in range(dim)]
-    return dict(typ=typ, dim=dim, U=U, omega=omega, delta=delta, phi=phi, noise=noise)
+            U[i][j] = U[j][i] = rng.choice([-1, 1]) * (0.75 if cancel else rng.uniform(0.05, 12.0))
+    kinds = rng.choice(SEQ_TEMPLATES)
+    return dict(typ=typ, dim=dim, U=U, steps=[gen_step(rng, n, dim, k) for k in kinds])
 
 
-def _ser(c):
-    d = dict(c)
-    d["noise"] = [[[z.real, z.imag] for z in r] for r in c["noise"]]
-    d["U"] = [[float(x) for x in r] for r in c["U"]]
+def _ser_step(st):
+    d = dict(st)
+    d["noise"] = [[[z.real, z.imag] for z in r] for r in st["noise"]]
     return d
 
 
+def _ser(c):
+    return dict(typ=c["typ"], dim=c["dim"], U=[[float(x) for x in r] for r in c["U"]], steps=[_ser_step(st) for st in c["steps"]])
+
+
 def _deser(d):
-    c = dict(d)
-    c["noise"] = [[complex(a, b) for a, b in r] for r in d["noise"]]
-    return c
+    def step(x):
+        st = dict(x)
+        st["noise"] = [[complex(a, b) for a, b in r] for r in x["noise"]]
+        return st
+    steps = d["steps"] if "steps" in d else [dict(omega=d["omega"], delta=d["delta"], phi=d["phi"], noise=d["noise"])]
+    return dict(typ=d["typ"], dim=d["dim"], U=d["U"], steps=[step(x) for x in steps])
+
+
+def exact_case(typ, dim, U, steps):
+    """serialisable form of an exact (dyadic, cos/sin taped to phi=0 products) update sequence, for replays:
+    omega*cos, omega*sin cannot be reproduced through phi, so the replay uses omega := |oc| etc. only as a witness
+    of the shape; the dense oracle is re-run on it."""
+    return dict(typ=typ, dim=dim, U=[[float(x) for x in r] for r in U],
+                steps=[dict(kind=k, omega=[float(abs(o)) for o in om], delta=[float(d.real) for d in de], phi=[0.0] * len(om),
+                            noise=[[[float(z.real), float(z.imag)] for z in r] for r in nz]) for k, om, de, nz in steps])
 
 
 def run_oracle(rep: Report, c) -> bool:
     try:
-        msg = oracle_case(c["typ"], c["dim"], c["U"], c["omega"], c["delta"], c["phi"], c["noise"])
+        msg = oracle_case(c["typ"], c["dim"], c["U"], c["steps"])
     except Exception as e:   # the real code misbehaving is a candidate finding
         msg = f"real make_H/update_H raised {type(e).__name__}: {e}"
     if msg:
@@ -325,7 +413,9 @@ def check(rep: Report, tier: str, seed: int) -> None:
     thorough = tier == "thorough"
     rep.rule = ("correspondence cases = (type, dim, U[, single-site inputs]); U = every sparsity pattern over the pairs "
                 "i<j for N<=5 (thorough N<=6, N=7 sampled) with random non-zero dyadic values of both signs, plus "
-                "non-symmetric dyadic matrices at factor level, plus update_H with dyadic drives/cos-sin tapes/noise; "
+                "non-symmetric dyadic matrices at factor level, plus update_H with dyadic drives/cos-sin tapes/noise, plus "
+                "sequences of 2-3 update_H calls on one MPO compared after every call (all-zero steps, noise only, one atom, "
+                "negative values); "
                 "non-trivial = at least one non-zero coupling; distinct = distinct (type, dim, U, mode) lines")
     rep.assumptions = [
         "complex128 rounding is outside the theorem (exact-arithmetic statement; the code's tensors are compared exactly "
@@ -357,8 +447,8 @@ def check(rep: Report, tier: str, seed: int) -> None:
                     try:
                         s = fmt_factors(impl_factor_list(typ, dim, Uf), dim)
                     except Exception as e:
-                        rep.fail(f"factor class raised {type(e).__name__}: {e}", dict(typ=typ, dim=dim, U=Uf, omega=[0.0] * n,
-                                 delta=[0.0] * n, phi=[0.0] * n, noise=[[[0.0, 0.0]] * dim] * dim))
+                        rep.fail(f"factor class raised {type(e).__name__}: {e}",
+                                 exact_case(typ, dim, Uf, [("zero", [0j] * n, [0j] * n, [[0j] * dim] * dim)]))
                         continue
                     add(typ, dim, U, "make", s, tag="pattern")
             rep.hist("patterns_N", n)
@@ -380,7 +470,7 @@ def check(rep: Report, tier: str, seed: int) -> None:
         Uz = [[(0 if i == j else U[i][j]) for j in range(n)] for i in range(n)]   # fill_diagonal_(0)
         add(typ, dim, Uz, "make", fmt_factors(impl_factor_list(typ, dim, Uf), dim), tag="nonsym")
     # (4) update_H, exact: dyadic drives, cos/sin tapes, complex noise block; modes direct / upd / upd2
-    for _ in range(3000 if thorough else 160):
+    for _ in range(3000 if thorough else 90):
         n = rng.randint(2, 6)
         dim = rng.choice([2, 3])
         typ = rng.choice(["ryd", "xy"])
@@ -396,12 +486,35 @@ def check(rep: Report, tier: str, seed: int) -> None:
             impl_update(ham, om, de, [0.0] * n, noise, cos_sin=(cs, sn))
             s = fmt_factors(ham.factors, dim)
         except Exception as e:
-            rep.fail(f"make_H/update_H raised {type(e).__name__}: {e}",
-                     dict(typ=typ, dim=dim, U=Uf, omega=[abs(o) for o in om], delta=[d.real for d in de], phi=[0.0] * n,
-                          noise=[[[z.real, z.imag] for z in r] for r in noise]))
+            rep.fail(f"make_H/update_H raised {type(e).__name__}: {e}", exact_case(typ, dim, Uf, [("generic", om, de, noise)]))
             continue
         sites, nz = single_args(om, de, cs, sn, noise)
         add(typ, dim, U, mode, s, sites, nz, tag="update")
+    # (4b) update SEQUENCES on one MPO (2-3 update_H calls), compared after EVERY update with `updateH` folded in the
+    # model: all-zero steps after driven/noisy ones, zero drive + noise, one non-zero atom, negative values
+    for ci in range(2500 if thorough else 130):
+        n = rng.randint(2, 6)
+        dim = rng.choice([2, 3])
+        typ = rng.choice(["ryd", "xy"])
+        U = pattern_U(n, random_pattern(n, rng), rng)
+        Uf = [[float(x) for x in r] for r in U]
+        kinds = SEQ_TEMPLATES[ci % len(SEQ_TEMPLATES)] if ci < 4 * len(SEQ_TEMPLATES) else tuple(
+            rng.choice(STEP_KINDS) for _ in range(rng.randint(2, 3)))
+        done_steps, done_args = [], []
+        try:
+            ham = impl_make(typ, dim, Uf)
+            for kind in kinds:
+                om, de, cs, sn, noise = gen_single(rng, n, dim, noisy=rng.random() < 0.7, kind=kind)
+                done_steps.append((kind, om, de, noise))
+                done_args.append(single_args(om, de, cs, sn, noise))
+                impl_update(ham, om, de, [0.0] * n, noise, cos_sin=(cs, sn))
+                lines.append(seq_line(typ, dim, U, done_args))
+                expect.append(fmt_factors(ham.factors, dim))
+                meta.append((typ, dim, n, "seq:" + ">".join(k for k, *_ in done_steps), "updseq", U))
+                rep.hist("seq_step_kind", kind)
+        except Exception as e:
+            rep.fail(f"make_H/update_H raised {type(e).__name__}: {e}", exact_case(typ, dim, Uf, done_steps))
+            continue
     rep.extra["t_impl_factors_s"] = round(time.time() - t0, 1)
     t0 = time.time()
     try:
@@ -425,6 +538,8 @@ def check(rep: Report, tier: str, seed: int) -> None:
                 rep.count("nonsym_disagreements")
                 continue
             dis += 1
+            if tag == "updseq":
+                rep.count("updseq_disagreements")
             if dis <= 5:
                 rep.broke(f"correspondence Model.HamMPO vs hamiltonian.py [{tag}] typ={typ} dim={dim} N={n} mode={mode} "
                           f"U={[[str(x) for x in r] for r in U]} model={m[:400]} impl={e[:400]}")
@@ -485,7 +600,7 @@ def replay(rep: Report, path: str) -> int:
     for f in data.get("failing_inputs", []):
         c = _deser(f["data"])
         try:
-            msg = oracle_case(c["typ"], c["dim"], c["U"], c["omega"], c["delta"], c["phi"], c["noise"])
+            msg = oracle_case(c["typ"], c["dim"], c["U"], c["steps"])
         except Exception as e:
             msg = f"real make_H/update_H raised {type(e).__name__}: {e}"
         print("replay:", msg or "property holds on this input now")
